@@ -11,6 +11,7 @@ Abstract unit (JSON-able dict):
    "calls": [local-name]}                   # programs only
 Names at use sites may be spelled in any letter case; declarations are what they are.
 """
+import copy
 import itertools
 
 KINDS = ["var", "type", "proc", "generic", "abs"]      # drawn at random; "iface" only through nested chains
@@ -19,6 +20,52 @@ CLS = {"var": "CVar", "type": "CType", "proc": "CProc", "generic": "CProc", "abs
 COQ_KIND = {"var": "KVar", "type": "KType", "proc": "KProc", "generic": "KGeneric", "abs": "KAbs", "iface": "KProc"}
 COQ_NKIND = {"routine": "NRoutine", "ifbody": "NIfBody", "absbody": "NAbsBody", "genbody": "NGenBody"}
 COQ_PERM = {"public": "Public", "private": "Private", "protected": "Protected"}
+
+
+# Names under which FORD always has a link object (ford.settings.INTRINSIC_MODS) and the `extra_mods`
+# option every run of this property sets: a project module of such a name must still be the one a
+# USE statement binds to (find_used_modules: first match over chain(modules, external_modules))
+INTRINSIC_NAMES = ["iso_fortran_env", "iso_c_binding", "ieee_arithmetic", "ieee_exceptions", "ieee_features",
+                   "openacc", "omp_lib", "mpi", "mpi_f08"]
+EXTRA_MODS = {"extlib": "https://example.org/extlib", "netcdf": "https://example.org/netcdf.html"}
+SPECIAL_NAMES = INTRINSIC_NAMES + sorted(EXTRA_MODS)
+EXTERNAL_NAMES = sorted(set(INTRINSIC_NAMES) | set(EXTRA_MODS))
+
+
+def all_uses(u):
+    """every USE statement of a unit: its own and those of its nested scopes"""
+    out = list(u["uses"])
+    for _, _, nd in nested_nodes(u):
+        out += nd["uses"]
+    return out
+
+
+def rename_modules(units, mapping):
+    """a copy of the program in which the modules named in `mapping` (lower-case old name -> new name)
+    bear the new name, in their MODULE statement and in every USE statement (the letter case chosen
+    at the use site is kept where it was all upper case)"""
+    units = copy.deepcopy(units)
+    for u in units:
+        if u["unit"] == "module" and u["name"].lower() in mapping:
+            u["name"] = mapping[u["name"].lower()]
+        for x in all_uses(u):
+            new = mapping.get(x["target"].lower())
+            if new is not None:
+                x["target"] = new.upper() if x["target"].isupper() else new
+    return units
+
+
+def specialise(rng, units, p_each=0.5):
+    """rename some modules to names FORD also knows as intrinsic / extra modules"""
+    mods = [u["name"].lower() for u in units if u["unit"] == "module"]
+    taken = {x["target"].lower() for u in units for x in all_uses(u)} | set(mods)
+    pool = [n for n in SPECIAL_NAMES if n not in taken]
+    rng.shuffle(pool)
+    mapping = {}
+    for m in mods:
+        if pool and rng.random() < p_each:
+            mapping[m] = pool.pop()
+    return rename_modules(units, mapping) if mapping else units
 
 
 # ----------------------------------------------------------------------------- generator-side guess
@@ -216,6 +263,16 @@ def gen_graph(rng, knobs=None):
         units.append(u)
     if knobs.get("program", rng.random() < 0.6):
         units.append(gen_program(rng, units, forms, knobs))
+    if rng.random() < knobs.get("p_special", 0.0):
+        units = specialise(rng, units)
+        if rng.random() < 0.3:
+            # a project module named like an intrinsic module next to `use, intrinsic :: <that name>`
+            # elsewhere (Fortran 2018 14.2.2: that statement designates the intrinsic module)
+            names = [u["name"].lower() for u in units if u["unit"] == "module" and u["name"].lower() in INTRINSIC_NAMES]
+            users = [u for u in units if u["name"].lower() not in names]
+            if names and users:
+                rng.choice(users)["uses"].append({"target": rng.choice(names), "only": None, "renames": [],
+                                                  "prefix": "intrinsic"})
     return units
 
 
